@@ -299,7 +299,7 @@ func c11Case(c *ctxT, r *gen.R, kind askWorldKind) {
 			defer awg.Done()
 			actx, cf := context.WithTimeout(ctx, time.Duration(rec.deadlineMs)*time.Millisecond)
 			defer cf()
-			resp := make([]byte, rec.buf)
+			resp := make([]byte, rec.buf, rec.buf+int(rec.id%3)*17) // often a window into a larger array
 			if bar != nil {
 				<-bar
 			}
